@@ -9,10 +9,12 @@ import (
 	"flag"
 	"fmt"
 	"os"
+	"path/filepath"
 	"runtime/debug"
 	"strings"
 	"time"
 
+	"deps.dev/util/semver/verifhook"
 	"verif/sim/kernel"
 	"verif/sim/props"
 	"verif/sim/racelog"
@@ -90,6 +92,11 @@ func runProp(prop string, t *kernel.Tape, o rt.Opts) *rt.Result {
 	return nil
 }
 
+func dumpProbes(dir string) {
+	bs, _ := json.Marshal(verifhook.Counts())
+	os.WriteFile(filepath.Join(dir, fmt.Sprintf("counts-%d.json", os.Getpid())), bs, 0o644)
+}
+
 func main() {
 	prop := flag.String("prop", "", "property id")
 	seed := flag.Uint64("seed", 1, "batch seed (VERIF_SEED)")
@@ -106,6 +113,9 @@ func main() {
 	if !kernel.RaceBuild {
 		fmt.Fprintln(os.Stderr, "worker must be built with -race")
 		os.Exit(2)
+	}
+	if pd := os.Getenv("VERIF_PROBES"); pd != "" {
+		defer dumpProbes(pd)
 	}
 	rl := racelog.FromEnv()
 	out := bufio.NewWriterSize(os.Stdout, 1<<20)
